@@ -39,6 +39,9 @@ pub fn floors() -> Vec<String> {
         "accepted",
         "rejected",
         "field:literal_offset_on_far_line",
+        "duplicate_label_across_break",
+        "duplicate_label_across_orig",
+        "label_before_break_ok",
     ] {
         v.push(extra.to_string());
     }
@@ -384,7 +387,8 @@ pub fn run(cfg: &Cfg, col: &mut Collector) {
     let far = far_line_cases();
     let n_far = if cfg.miri { 0 } else { far.len() as u64 };
     let far = &far;
-    let total = n_mat + n_lab + n_sym + n_inj + n_far;
+    let n_rawsym = RAW_SYMBOL_CASES.len() as u64 * 2;
+    let total = n_mat + n_lab + n_sym + n_inj + n_far + n_rawsym;
     let seed = cfg.seed;
     let (mat, labs) = (&mat, &labs);
     crate::util::run_cases_plain(total, cfg.only_case, cfg.threads, col, move |i| {
@@ -429,6 +433,8 @@ pub fn run(cfg: &Cfg, col: &mut Collector) {
             }
         } else if i < n_mat + n_lab + n_sym + n_inj {
             injected(&mut rng)
+        } else if i >= n_mat + n_lab + n_sym + n_inj + n_far {
+            return raw_symbol_case((i - n_mat - n_lab - n_sym - n_inj - n_far) as usize, i);
         } else {
             let (pad, form, off) = far[(i - n_mat - n_lab - n_sym - n_inj) as usize];
             Built {
@@ -448,6 +454,41 @@ pub fn run(cfg: &Cfg, col: &mut Collector) {
             ("random_programs_with_injected_operand", J::I(n_inj as i64)),
         ]),
     ));
+}
+
+/// Sources the abstract program model cannot express (a label line followed by a directive that
+/// emits no word, then the same label again), with the verdict the property gives them.
+const RAW_SYMBOL_CASES: &[(&str, bool, &str)] = &[
+    ("loop .break\nloop add r0 r0 #1\nhalt\n", false, "duplicate_label_across_break"),
+    ("loop\n.break\nloop add r0 r0 #1\nbr loop\nhalt\n", false, "duplicate_label_across_break"),
+    ("main .orig x3000\nmain lea r0 main\nhalt\n", false, "duplicate_label_across_orig"),
+    ("a1 add r0 r0 #1\na1 .break\nhalt\n", false, "duplicate_label_across_break"),
+    ("lp .break\nadd r0 r0 #1\nbr lp\nhalt\n", true, "label_before_break_ok"),
+    ("Lp add r0 r0 #1\nlp .break\nadd r1 r1 #1\nbr Lp\nbr lp\n", true, "label_before_break_ok"),
+];
+
+fn raw_symbol_case(i: usize, case: u64) -> CaseOut {
+    let mut out = CaseOut::new();
+    let (text, accept, tag) = RAW_SYMBOL_CASES[i % RAW_SYMBOL_CASES.len()];
+    let outcome = std::thread::scope(|s| {
+        std::thread::Builder::new().stack_size(4 << 20).spawn_scoped(s, || assemble_fresh(text, i % 2 == 0)).unwrap().join()
+    });
+    let Ok(outcome) = outcome else {
+        out.inconclusive = Some("assembler thread could not be joined".into());
+        return out;
+    };
+    out.nontrivial = Some(hash_bytes(text.as_bytes()));
+    let detail = J::obj(vec![("source", J::s(text)), ("observed", J::s(outcome.class())), ("expected", J::s(if accept { "accept" } else { "reject" }))]);
+    match (&outcome, accept) {
+        (AsmOutcome::Ok(_), false) => out.violate(format!("C04/accepted-out-of-range/{}", tag), case, "a label defined twice is accepted", detail),
+        (AsmOutcome::Rejected(d), true) => out.violate(format!("C04/rejected-valid/{}", tag), case, format!("rejected a valid program: {}", d.message), detail),
+        (AsmOutcome::Crashed { abort, .. }, _) => out.violate(format!("C04/crash/{}/{}", tag, abort.panic_file()), case, abort.short(), detail),
+        _ => {
+            out.class(tag);
+            out.class(outcome.class());
+        }
+    }
+    out
 }
 
 fn one_case(b: Built, rng: &mut Rng, case: u64) -> CaseOut {
